@@ -16,6 +16,41 @@ Definition pipe_verdict (B BATCH hs : N) (dep : bool) (login rest : list ev) : b
 """
 
 
+def unencodable_error_probe(ctx):
+    """an error whose message quotes text the results character set cannot express (the client's own statement, the
+    application's message) is still answered with exactly one ERR, and the connection stays in step"""
+    import client as cl
+    import impl
+    from mysql_mimic.errors import MysqlError
+    for setting in ("latin1", "ascii", "cp1251", "sjis"):
+        for trigger in ("library", "application"):
+            env = impl.Env(own_sleep=False)
+            try:
+                class S(impl.Session):
+                    async def query(self, e, sql, attrs):
+                        raise MysqlError("\u8868 \u0436 \u00e9 failed", 1064)
+                srv = impl.make_server(env, S)
+                c = impl.Conn(env, srv)
+                env.settle(); c.take()
+                c.feed(cl.frame(cl.handshake_response(user=b"u", charset=45), 1)); c.take()
+                c.feed(cl.frame(bytes([cl.COM_QUERY]) + f"SET character_set_results = '{setting}'".encode(), 0)); c.take()
+                sql = "SET @@\u4e2d\u6587\u0436\u00e9 = 1" if trigger == "library" else "SELECT a FROM t"
+                c.feed(cl.frame(bytes([cl.COM_QUERY]) + sql.encode("utf8"), 0))
+                got = cl.split_raw(c.take())
+                ctx.evals += 1
+                ok = len(got) == 1 and got[0][0] == 1 and got[0][1][:1] == b"\xff" and c.blocked_on() == "read"
+                if ok:
+                    c.feed(cl.frame(bytes([cl.COM_PING]), 0))
+                    pg = cl.split_raw(c.take())
+                    ok = len(pg) == 1 and pg[0][1][:1] == b"\x00"
+                if not ok:
+                    return dict(kind="unencodable-error-message", results_character_set=setting, error_raised_by=trigger, statement=sql,
+                                answered=[(q, p[:12].hex()) for q, p in got][:4], connection=c.blocked_on())
+            finally:
+                env.close()
+    return None
+
+
 def big_prepare_probe(ctx):
     """COM_STMT_PREPARE whose placeholder count sits on both sides of the 2-byte field of the prepare-OK (65535 / 65536 /
     70000), followed by a PING: what the prepare-OK announces must be what follows it (or the command gets ONE ERR), and the
@@ -163,6 +198,9 @@ def run(ctx: core.Ctx):
     bp = big_prepare_probe(ctx)
     if bp and witness is None:
         witness = bp
+    ue = unencodable_error_probe(ctx)
+    if ue and witness is None:
+        witness = ue
     # a command the server does not finish answering: where the model keeps serving, the implementation closed its session -
     # in these conversations the client never goes away, sends nothing malformed and nobody kills anything
     for c in disagreements:
